@@ -35,6 +35,21 @@
                 }
             }
         }
+        // the flush buffer: a resident set that exactly fits the configured buffer pool (1 flusher) survives close + reopen
+        {
+            let dir = tempfile::tempdir().unwrap();
+            let hybrid = tests::open_pool_for_witness(dir.path(), 64 * KB).await;
+            for k in 0..16u64 { hybrid.insert(k, vec![k as u8; 3 * KB]); }
+            hybrid.close().await.unwrap();
+            drop(hybrid);
+            let hybrid = tests::open_pool_for_witness(dir.path(), 64 * KB).await;
+            let mut missing = vec![];
+            for k in 0..16u64 { if hybrid.get(&k).await.unwrap().is_none() { missing.push(k); } }
+            if !missing.is_empty() {
+                found.push(format!("WITNESS every_flusher_gets_its_equal_share_of_the_configured_buffer_pool :: write-on-eviction, flush on close, 1 flusher, buffer pool 64 KiB: insert 16 entries of 3 KiB (one page each = 64 KiB); close(); reopen => keys {:?} are not on disk", missing));
+            }
+            hybrid.close().await.unwrap();
+        }
         for f in found.iter().take(3) { println!("{f}"); }
         println!("WITNESS-SEARCH-DONE found={}", found.len());
     }
